@@ -467,16 +467,47 @@ impl<'a> Interp<'a> {
                 let (r, _) = if kk == k::BIntoVec {
                     call(move || Vec::from(b))
                 } else {
+                    // besides a plain collect: the other Iterator / ExactSizeIterator methods of the by-value iterator (nth - which skip and
+                    // step_by go through -, len, size_hint) against what std's default methods do on the model
+                    let mode = op.a % 4;
+                    let n = sel_idx(op.b, m.bytes.len(), m.bytes.len()).min(1 << 20);
+                    let exp_store = m.bytes.clone();
+                    let exp: &[u8] = &exp_store;
                     call(move || {
                         let by_ref: Vec<u8> = (&b).into_iter().copied().collect();
-                        let v = b.into_iter().collect::<Vec<u8>>();
-                        assert!(by_ref == v, "harness-visible: (&Bytes).into_iter() and Bytes::into_iter() disagree");
+                        let mut it = b.into_iter();
+                        let v = match mode {
+                            1 | 2 => {
+                                let x = if mode == 1 { it.nth(n) } else { it.by_ref().skip(n).next() };
+                                let left = it.len();
+                                let hint = it.size_hint();
+                                let again = it.next();
+                                let rest: Vec<u8> = it.collect();
+                                let want_rest: &[u8] = if n < exp.len() { &exp[n + 1..] } else { &[] };
+                                let got_rest: Vec<u8> = again.into_iter().chain(rest.iter().copied()).collect();
+                                if x == exp.get(n).copied() && left == want_rest.len() && hint == (left, Some(left)) && got_rest[..] == want_rest[..] {
+                                    exp.to_vec() // (allocated inside the bracket, like a collected vector)
+                                } else {
+                                    // something the model cannot be: shows up as a conversion-result difference
+                                    let mut bad = vec![0xEE, 0x4E, 0x54, 0x48];
+                                    bad.extend(x);
+                                    bad.push(left as u8);
+                                    bad.extend(got_rest);
+                                    bad
+                                }
+                            }
+                            _ => it.collect::<Vec<u8>>(),
+                        };
+                        assert!(mode == 1 || mode == 2 || by_ref == v, "harness-visible: (&Bytes).into_iter() and Bytes::into_iter() disagree");
                         v
                     })
                 };
                 match r {
                     Ok(v) => {
                         if v[..] != m.bytes[..] {
+                            if wrong_bytes_are_poison(&v, &m.bytes) {
+                                self.viol("C02", "read-of-freed-memory", format!("{} copied its result out of a freed block: {}", k::name(kk), diff_msg(&v, &m.bytes)));
+                            }
                             self.viol("C01", "conversion-result", format!("{}: {}", k::name(kk), diff_msg(&v, &m.bytes)));
                         }
                         let mut m2 = m;
@@ -649,16 +680,47 @@ impl<'a> Interp<'a> {
                 let (r, _) = if kk == k::MIntoVec {
                     call(move || Vec::from(b))
                 } else {
+                    // besides a plain collect: the other Iterator / ExactSizeIterator methods of the by-value iterator (nth - which skip and
+                    // step_by go through -, len, size_hint) against what std's default methods do on the model
+                    let mode = op.a % 4;
+                    let n = sel_idx(op.b, m.bytes.len(), m.bytes.len()).min(1 << 20);
+                    let exp_store = m.bytes.clone();
+                    let exp: &[u8] = &exp_store;
                     call(move || {
                         let by_ref: Vec<u8> = (&b).into_iter().copied().collect();
-                        let v = b.into_iter().collect::<Vec<u8>>();
-                        assert!(by_ref == v, "harness-visible: (&BytesMut).into_iter() and BytesMut::into_iter() disagree");
+                        let mut it = b.into_iter();
+                        let v = match mode {
+                            1 | 2 => {
+                                let x = if mode == 1 { it.nth(n) } else { it.by_ref().skip(n).next() };
+                                let left = it.len();
+                                let hint = it.size_hint();
+                                let again = it.next();
+                                let rest: Vec<u8> = it.collect();
+                                let want_rest: &[u8] = if n < exp.len() { &exp[n + 1..] } else { &[] };
+                                let got_rest: Vec<u8> = again.into_iter().chain(rest.iter().copied()).collect();
+                                if x == exp.get(n).copied() && left == want_rest.len() && hint == (left, Some(left)) && got_rest[..] == want_rest[..] {
+                                    exp.to_vec() // (allocated inside the bracket, like a collected vector)
+                                } else {
+                                    // something the model cannot be: shows up as a conversion-result difference
+                                    let mut bad = vec![0xEE, 0x4E, 0x54, 0x48];
+                                    bad.extend(x);
+                                    bad.push(left as u8);
+                                    bad.extend(got_rest);
+                                    bad
+                                }
+                            }
+                            _ => it.collect::<Vec<u8>>(),
+                        };
+                        assert!(mode == 1 || mode == 2 || by_ref == v, "harness-visible: (&BytesMut).into_iter() and BytesMut::into_iter() disagree");
                         v
                     })
                 };
                 match r {
                     Ok(v) => {
                         if v[..] != m.bytes[..] {
+                            if wrong_bytes_are_poison(&v, &m.bytes) {
+                                self.viol("C02", "read-of-freed-memory", format!("{} copied its result out of a freed block: {}", k::name(kk), diff_msg(&v, &m.bytes)));
+                            }
                             self.viol("C01", "conversion-result", format!("{}: {}", k::name(kk), diff_msg(&v, &m.bytes)));
                         }
                         self.slots[i] = Slot::V(v, m);
